@@ -307,6 +307,25 @@ func firstLine(s string) string {
 	return s
 }
 
+// grown reports whether the globals of the prelude have been blown up by the cases run so far.
+func (t *rt) grown() bool {
+	for _, n := range []string{"x", "s", "y", "u", "a", "o"} {
+		v := t.r.Get(n)
+		if v == nil {
+			continue
+		}
+		if st, ok := v.(goja.String); ok && st.Length() > 1<<12 {
+			return true
+		}
+		if ob, ok := v.(*goja.Object); ok && ob.ClassName() == "Array" {
+			if l := ob.Get("length"); l != nil && l.ToInteger() > 1<<12 {
+				return true
+			}
+		}
+	}
+	return false
+}
+
 // behavioural probe: a leaked operand-stack slot or scope is visible to the next program.
 const probeSrc = `(function(){ try { throw 7 } catch (e) { let z = e; var w = [z, typeof x, (function(){ return arguments.length })(1,2)]; return w.join() } })()`
 
@@ -366,6 +385,9 @@ func (w *worker) do(src string, family string, modeSet []int) {
 		w.run.Outcome(m.name + "|" + outcome)
 		if len(fails) > 0 {
 			w.report(src, family, mi, t, fails)
+		}
+		if reusable && t.grown() {
+			reusable = false // a batch of cases that keeps doubling a global would exhaust memory by itself
 		}
 		if reusable {
 			t.used++
